@@ -77,10 +77,11 @@ def main():
 
     def build(uname):
         u = UNITS[uname]
-        roots = sorted(set(h['fn'] for hs in REGISTRY.values() for h in hs if h['unit'] == uname))
+        roots = sorted(set(h['fn'] for hs in REGISTRY.values() for h in hs if h['unit'] == uname)) + list(u.get('extra_roots', ()))
         return pipeline.build_unit(uname, os.path.join(VERIF, u['cpp']), roots, defines=u.get('defines', ()),
                                    sessions=u.get('sessions', 2), cuts=u.get('cuts', ()), inline_all=u.get('inline_all', False),
-                                   cdefs=u.get('cdefs', ()), all_hooks=u.get('all_hooks', False))
+                                   cdefs=u.get('cdefs', ()), all_hooks=u.get('all_hooks', False),
+                                   extra_c=[os.path.join(VERIF, x) for x in u.get('extra_c', ())])
     with ThreadPoolExecutor(max_workers=a.jobs) as ex:
         futs = {ex.submit(build, n): n for n in need}
         for n in need:
@@ -99,7 +100,8 @@ def main():
             if h['unit'] not in units:
                 continue
             kw = dict(timeout=h.get('timeout', 300 if tier == 'quick' else 3600), default_data=h.get('data', 4),
-                      unwind_overrides=h.get('unwind'), checks=h.get('checks', False))
+                      unwind_overrides=h.get('unwind'), checks=h.get('checks', False), tags=h.get('tags', ()),
+                      recursion=h.get('recursion', 1))
             if 'solver' in h:
                 kw['solver'] = h['solver']
             hf[ex.submit(pipeline.run_harness, units[h['unit']], h['fn'], tier, **kw)] = h
